@@ -17,9 +17,11 @@
 //! dropped before end-of-stream — decided by observation, not by a static list. Operators inside the recursive
 //! term of a `RecursiveQueryExec` are exempt (the engine re-instantiates them per iteration), operators that
 //! publish no `output_rows` metric are counted as such.
-//! Second witness (DESIGN.md's original oracle): the un-instrumented plan's nodes are re-executed in isolation
-//! (state-reset subtree, all partitions) and their row totals compared with the tap counts; a disagreement
-//! between the two witnesses while metric == tap is reported as `inconclusive` (never a violation, never a pass).
+//! DESIGN.md's original witness — the row total of an isolated re-execution of the node's subtree — is computed
+//! too and shown in violation messages, but it only yields labels (`isolated-count-agrees` /
+//! `isolated-count-differs@Op`): it is not a sound equality witness, because the partition a round-robin
+//! repartition sends a batch to depends on arrival order and partial aggregates emit one row per group per
+//! partition, so a re-execution may legitimately produce a different number of intermediate rows.
 //!
 //! Non-trivial: ≥ 4 operators compared with equality, one of them a RepartitionExec / SortPreservingMergeExec /
 //! CoalescePartitionsExec, and the query returned ≥ 1 row.
@@ -46,7 +48,7 @@ use std::task::{Context, Poll};
 use vf_kit::engine::*;
 
 use crate::c30::fail_result;
-use crate::walk::{self, Program, Purpose, WalkCase, WalkFail};
+use crate::walk::{self, Finding, Judged, Program, Purpose, WalkCase, WalkFail};
 
 pub struct C53;
 
@@ -183,7 +185,6 @@ pub struct Observed {
     pub name: String,
     pub display: String,
     pub metric_rows: Option<usize>,
-    pub has_metrics: bool,
     pub tap_rows: usize,
     pub opened: usize,
     pub finished: usize,
@@ -220,7 +221,6 @@ pub fn run_case(case: &WalkCase) -> Result<Run, WalkFail> {
                     name: t.name.clone(),
                     display: t.display.clone(),
                     metric_rows: ms.as_ref().and_then(|m| m.output_rows()),
-                    has_metrics: ms.is_some(),
                     tap_rows: t.counters.rows.load(Ordering::SeqCst),
                     opened: t.counters.opened.load(Ordering::SeqCst),
                     finished: t.counters.finished.load(Ordering::SeqCst),
@@ -273,43 +273,56 @@ impl Property for C53 {
             "metrics are read after collect() returned, when every partition stream has been dropped".into(),
         ]
     }
+    fn known_signature(&self, case: &WalkCase) -> Option<String> {
+        walk::judged_signature("c53", case, || judge(case))
+    }
     fn run(&self, case: &WalkCase) -> CaseResult {
-        let run = match run_case(case) {
-            Ok(r) => r,
-            Err(e) => return fail_result(e),
-        };
-        let mut labels: Vec<String> = vec![];
-        let mut names: Vec<String> = run.ops.iter().map(|o| format!("op:{}", o.name)).collect();
-        names.sort();
-        names.dedup();
-        labels.extend(names);
-        labels.push(format!("tp:{}", case.variant.target_partitions));
-        labels.push(match &case.program {
-            Program::Ref(_) => "prog:refsql".to_string(),
-            Program::Tmpl(_) => "prog:tmpl".to_string(),
-        });
-        if let Some(e) = &run.error {
-            return CaseResult::discard(format!("query fails at run time: {}", walk::discard_key(e))).labels(labels);
+        walk::judged_result("c53", case, || judge(case))
+    }
+}
+
+fn judge(case: &WalkCase) -> Judged {
+    let run = match run_case(case) {
+        Ok(r) => r,
+        Err(e) => return Judged::clean(fail_result(e)),
+    };
+    let mut labels: Vec<String> = vec![];
+    let mut names: Vec<String> = run.ops.iter().map(|o| format!("op:{}", o.name)).collect();
+    names.sort();
+    names.dedup();
+    labels.extend(names);
+    labels.push(format!("tp:{}", case.variant.target_partitions));
+    labels.push(match &case.program {
+        Program::Ref(_) => "prog:refsql".to_string(),
+        Program::Tmpl(_) => "prog:tmpl".to_string(),
+    });
+    if let Some(e) = &run.error {
+        return Judged::clean(CaseResult::discard(format!("query fails at run time: {}", walk::discard_key(e))).labels(labels));
+    }
+    let mut compared = 0;
+    let mut wrapper = false;
+    let mut findings = vec![];
+    for o in &run.ops {
+        if o.under_recursive {
+            labels.push("exempt:inside-recursive-term".into());
+            continue;
         }
-        let mut compared = 0;
-        let mut wrapper = false;
-        let mut disagree: Option<String> = None;
-        for o in &run.ops {
-            if o.under_recursive {
-                labels.push("exempt:inside-recursive-term".into());
-                continue;
-            }
-            let Some(m) = o.metric_rows else {
-                labels.push(format!("no-output-rows-metric@{}", o.name));
-                continue;
-            };
-            let full = o.opened > 0 && o.opened == o.finished && o.errors == 0;
-            if !full {
-                labels.push(if o.opened == 0 { format!("never-executed@{}", o.name) } else { format!("not-consumed-in-full@{}", o.name) });
-                continue;
-            }
-            if m != o.tap_rows {
-                return CaseResult::violation(format!(
+        let Some(m) = o.metric_rows else {
+            labels.push(format!("no-output-rows-metric@{}", o.name));
+            continue;
+        };
+        let full = o.opened > 0 && o.opened == o.finished && o.errors == 0;
+        if !full {
+            labels.push(if o.opened == 0 { format!("never-executed@{}", o.name) } else { format!("not-consumed-in-full@{}", o.name) });
+            continue;
+        }
+        if m != o.tap_rows {
+            let classic = ["join_type=Inner", "join_type=Left,", "join_type=Right,", "join_type=Full"].iter().any(|t| o.display.contains(t));
+            // known finding: the classic PiecewiseMergeJoin stream never calls record_poll
+            let sig = (o.name == "PiecewiseMergeJoinExec" && classic && m == 0).then(|| "piecewise-merge-join-classic-output-rows".to_string());
+            findings.push(Finding {
+                sig,
+                msg: format!(
                     "operator [{}] {} reports output_rows = {m} but emitted {} rows ({} partition streams opened, all polled to end-of-stream; isolated re-execution of its subtree: {:?} rows){}\n  plan:\n{}",
                     o.path,
                     o.display,
@@ -318,38 +331,43 @@ impl Property for C53 {
                     o.isolated_rows,
                     case.describe(),
                     run.plan_text
-                ))
-                .labels(labels);
+                ),
+            });
+            continue;
+        }
+        compared += 1;
+        labels.push(format!("compared@{}", o.name));
+        if matches!(o.name.as_str(), "RepartitionExec" | "SortPreservingMergeExec" | "CoalescePartitionsExec") {
+            wrapper = true;
+            if o.display.contains("preserve_order=true") {
+                labels.push("order-preserving-repartition".into());
             }
-            compared += 1;
-            labels.push(format!("compared@{}", o.name));
-            if matches!(o.name.as_str(), "RepartitionExec" | "SortPreservingMergeExec" | "CoalescePartitionsExec") {
-                wrapper = true;
-                if o.display.contains("preserve_order=true") {
-                    labels.push("order-preserving-repartition".into());
+        }
+        if let Some(i) = o.isolated_rows {
+            if i != o.tap_rows {
+                // not a sound equality witness: which partition a round-robin repartition sends a batch to depends on
+                // arrival order, and partial aggregates emit one row per group *per partition*
+                labels.push(format!("isolated-count-differs@{}", o.name));
+                if std::env::var_os("VFW_DEBUG").is_some() {
+                    eprintln!("ISOLATED COUNT DIFFERS [{}] {}: tap {} vs isolated {i}{}\n  plan:\n{}", o.path, o.name, o.tap_rows, case.describe(), run.plan_text);
                 }
-            }
-            if let Some(i) = o.isolated_rows {
-                if i != o.tap_rows && disagree.is_none() {
-                    disagree = Some(format!("[{}] {}: tap {} vs isolated {}", o.path, o.name, o.tap_rows, i));
-                }
+            } else {
+                labels.push("isolated-count-agrees".into());
             }
         }
-        labels.sort();
-        labels.dedup();
-        if let Some(d) = disagree {
-            return CaseResult::inconclusive(format!("witnesses disagree (tap vs isolated re-execution) {}", d.chars().filter(|c| !c.is_ascii_digit()).collect::<String>())).labels(labels);
-        }
-        let nt = compared >= 4 && wrapper && run.result_rows >= 1;
-        let mut r = CaseResult::pass().nontrivial(nt).labels(labels);
-        if let Program::Tmpl(t) = &case.program {
-            r = r.labels(t.features());
-        }
-        r.label(format!("compared:{}", match compared {
-            0 => "0",
-            1..=3 => "1-3",
-            4..=7 => "4-7",
-            _ => "8+",
-        }))
     }
+    labels.sort();
+    labels.dedup();
+    let nt = compared >= 4 && wrapper && run.result_rows >= 1;
+    let mut r = CaseResult::pass().nontrivial(nt).labels(labels);
+    if let Program::Tmpl(t) = &case.program {
+        r = r.labels(t.features());
+    }
+    let r = r.label(format!("compared:{}", match compared {
+        0 => "0",
+        1..=3 => "1-3",
+        4..=7 => "4-7",
+        _ => "8+",
+    }));
+    Judged { findings, result: r }
 }
